@@ -1226,6 +1226,20 @@ gc_arena::static_collect!(Zt16);
 gc_arena::static_collect!(Zt32);
 gc_arena::static_collect!(Zt64);
 
+trait ZMark {
+    fn zmark(&self) -> u8;
+}
+impl ZMark for Zt1 {
+    fn zmark(&self) -> u8 {
+        1
+    }
+}
+impl ZMark for Zt2 {
+    fn zmark(&self) -> u8 {
+        2
+    }
+}
+
 impl<'w, 'r, 'gc> Cb<'w, 'r, 'gc> {
     /// Content check of an opaque leaf, stored as an erased thin pointer.
     fn check_opaque(&mut self, id: Id, ptr: gc_arena::Gc<'gc, ()>) -> Result<(), (&'static str, String)> {
@@ -1284,6 +1298,42 @@ impl<'w, 'r, 'gc> Cb<'w, 'r, 'gc> {
                 _ => zst!(Zt64),
             }
         };
+        // identity must not depend on pointer metadata: two different zero-sized types served by
+        // the cache share one allocation; unsized to the same trait object / slice type they carry
+        // different vtables / lengths, and are still pointers to the same allocation (C19)
+        if !sized {
+            let x: gc_arena::Gc<'gc, dyn ZMark> = {
+                let g = cache.alloc(mc, Zt1);
+                gc_arena::unsize!(g => dyn ZMark)
+            };
+            let y: gc_arena::Gc<'gc, dyn ZMark> = {
+                let g = cache.alloc(mc, Zt2);
+                gc_arena::unsize!(g => dyn ZMark)
+            };
+            let a3: gc_arena::Gc<'gc, [Zt1]> = {
+                let g = cache.alloc(mc, [Zt1; 3]);
+                gc_arena::unsize!(g => [Zt1])
+            };
+            let a5: gc_arena::Gc<'gc, [Zt1]> = {
+                let g = cache.alloc(mc, [Zt1; 5]);
+                gc_arena::unsize!(g => [Zt1])
+            };
+            let same_addr = gc_arena::Gc::as_ptr(x) as *const () == gc_arena::Gc::as_ptr(y) as *const () && gc_arena::Gc::as_ptr(a3) as *const () == gc_arena::Gc::as_ptr(a5) as *const ();
+            if same_addr {
+                if !gc_arena::Gc::ptr_eq(x, y) || !gc_arena::GcWeak::ptr_eq(gc_arena::Gc::downgrade(x), gc_arena::Gc::downgrade(y)) {
+                    self.viol("C19.ptr-eq", "two trait-object pointers to the same allocation (different vtables) are not ptr_eq".to_string());
+                    return;
+                }
+                if !gc_arena::Gc::ptr_eq(a3, a5) || a3.len() != 3 || a5.len() != 5 {
+                    self.viol("C19.ptr-eq", "two slice pointers to the same allocation (lengths 3 and 5) are not ptr_eq, or lost their lengths".to_string());
+                    return;
+                }
+                if x.zmark() != 1 || y.zmark() != 2 {
+                    self.viol("C19.read", "a trait object made from a cached ZST dispatches to the wrong type".to_string());
+                    return;
+                }
+            }
+        }
         let expect = size == 0 && align <= 16;
         self.w.stats.cell(format!("zst|size{}|align{align}|{}", size.min(1), if cached { "cached" } else { "fresh" }));
         if cached != expect {
@@ -1440,6 +1490,71 @@ impl<'w, 'r, 'gc> Cb<'w, 'r, 'gc> {
                             completed = Some(gc_arena::Gc::erase(g));
                         }
                         _ => drop(b),
+                    }
+                }
+                BKind::SwhTokPod => {
+                    let b = GcSliceWithHeaderBuilder::<Tok, u32>::new(n);
+                    match stage {
+                        BStage::AbandonNew => drop(b),
+                        BStage::AbandonAfterHeader => {
+                            made_header = true;
+                            drop(b.write_header(Tok(first)))
+                        }
+                        BStage::PanicAt(k) => {
+                            made_header = true;
+                            let k = (k as usize).min(n.saturating_sub(1));
+                            expected_panic = n > 0;
+                            let g = b.write_header(Tok(first)).write_slice_with(mc, |i| {
+                                if i == k {
+                                    std::panic::panic_any(Injected)
+                                }
+                                i as u32
+                            });
+                            completed = Some(gc_arena::Gc::erase(g));
+                        }
+                        BStage::WrongLen(d) => {
+                            made_header = true;
+                            let src = {
+                                let _p = seam::pause();
+                                vec![7u32; (n as i64 + d as i64).max(0) as usize]
+                            };
+                            expected_panic = src.len() != n;
+                            let g = b.write_header(Tok(first)).copy_slice(mc, &src);
+                            completed = Some(gc_arena::Gc::erase(g));
+                        }
+                        BStage::Complete => {
+                            made_header = true;
+                            let g = b.write_header(Tok(first)).write_slice_with(mc, |i| i as u32);
+                            completed = Some(gc_arena::Gc::erase(g));
+                        }
+                    }
+                }
+                BKind::SwhPodTok => {
+                    let b = GcSliceWithHeaderBuilder::<u64, Tok>::new(n);
+                    match stage {
+                        BStage::AbandonNew => drop(b),
+                        BStage::AbandonAfterHeader => drop(b.write_header(9)),
+                        BStage::PanicAt(k) => {
+                            let k = (k as usize).min(n.saturating_sub(1));
+                            expected_panic = n > 0;
+                            let cnt = &mut made_elems;
+                            let g = b.write_header(9).write_slice_with(mc, |i| {
+                                if i == k {
+                                    std::panic::panic_any(Injected)
+                                }
+                                *cnt += 1;
+                                Tok(first + 1 + i as u32)
+                            });
+                            completed = Some(gc_arena::Gc::erase(g));
+                        }
+                        _ => {
+                            let cnt = &mut made_elems;
+                            let g = b.write_header(9).write_slice_with(mc, |i| {
+                                *cnt += 1;
+                                Tok(first + 1 + i as u32)
+                            });
+                            completed = Some(gc_arena::Gc::erase(g));
+                        }
                     }
                 }
                 BKind::StaticSwh => {
